@@ -11,7 +11,7 @@ import signal
 import common
 import minif
 from common import sx, parse_sx
-from props import c08_gen
+from props import c08_gen, c08_psykal
 
 WATCHDOG_S = 8     # first timeout; later calls of the same run get WATCHDOG_AFTER_S (normal calls take < 0.5 s)
 WATCHDOG_AFTER_S = 3
@@ -284,6 +284,8 @@ def run(chk):
             chk.correspondence_broken("can_loop_be_parallelised differs from C08.canParallelise", {"source": src},
                                       res["model"], res["real"])
     chk.cov["distribution"] = dict(dist, flavours=flav, message_codes=codes)
+    # real PSy-layer loops (LFRic / GOcean kernels and built-ins): answers, domain rule, GOcean model correspondence
+    chk.cov["psykal_family"] = c08_psykal.run_family(chk)
     # known findings: replay the witnesses against the real code
     for e in known.values():
         src = wrap(e["witness"]["loop"])
@@ -306,6 +308,12 @@ def _new_failure(res):
 
 
 def replay(payload):
+    if payload.get("kind") == "psykal":
+        return c08_psykal.replay(payload)
+    brk = payload.get("broken") or []
+    if payload.get("source") is None and brk and isinstance(brk[0], dict) and \
+            (brk[0].get("case") or {}).get("kind") == "psykal":
+        return c08_psykal.replay(brk[0]["case"])
     src = payload.get("source")
     if src is None:      # a broken correspondence without a failing input: re-run the disagreeing case
         try:
